@@ -23,6 +23,8 @@ CONSTANTS
   EntriesAt <- MCEntriesAt
   OffsetsOf <- MCOffsetsOf
   AddrClass <- MCAddrClass
+  UnitsOf <- MCUnitsOf
+  MagsOf <- MCMagsOf
   Defects = {%(defects)s}
   Log <- %(log)s
 %(rest)s
@@ -35,7 +37,8 @@ def run(ctx):
     quick = ctx.quick
     ctx.assume("a text form is one of: canonical lower case, all upper case, mixed case of the same characters (the bech32 "
                "library rejects non-zero padding bits and mixed case, so these are all texts that can denote one address)",
-               "amounts are small integers (the parser uses big.Int; no overflow behaviour exists to be missed)",
+               "amounts are small symbolic integers in TLA+; the big-number modes write them with a unit (1, 10^18, 6.67*10^24) and write "
+               "every mismatch with a magnitude class (2^32 .. 3*2^64) -- a linear map, so the clauses keep their truth value",
                "address converter of length 32 (bech32 and hex), ed25519 key generator as in node/nodeRunner.go",
                "C47 is 'accepted only if': a parser stricter than the four clauses is not a violation (recorded as drift "
                "only when it differs from the model of the code)")
@@ -81,6 +84,7 @@ def run(ctx):
             distinct_nontrivial=int(h.stats.get("distinct_not_required", 0)),
             accepted_by_real_parser=int(h.stats.get("accepted", 0)),
             duplicate_address_cases=int(h.stats.get("duplicate_address_cases", 0)),
+            big_number_cases=int(h.stats.get("big_number_cases", 0)),
             drift_cases=int(h.stats.get("drift_cases", 0)), exhaustive=True)
     if present and not any(v["sig"].startswith("C47/accepted/duplicate-address") for v in h.violations):
         ctx.broken.append("the probe found the deviation {%s} but no replayed case reproduces it" % dq)
@@ -111,5 +115,7 @@ def run(ctx):
                  "tuples supply 0..3 / balance 0..2 / staked 0..1 / delegated 0..1 and of 3 entries over a reduced set (distinct "
                  "addresses), lists of <= 3 entries over {2 user, 1 almost-contract, 1 contract address} x {lower, upper, mixed case} "
                  "for the bech32 and the hex converter, lists of <= 2 entries mixing both with every delegation address kind; "
-                 "configured total = sum-1 / sum / sum+1; distinct_nontrivial = distinct inputs violating at least one clause "
+                 "configured total = sum-1 / sum / sum+1; big-number modes: 1- and 2-entry lists (incl. negative parts) written with unit "
+                 "1 / 10^18 / 6.67*10^24 and every mismatch (entry supply, total) written with magnitude 1, 2^32, 2^63, 2^64, 2^64-1, "
+                 "2^64+1, 3*2^64, 10^18 (Required unchanged: the map is linear); distinct_nontrivial = distinct inputs violating at least one clause "
                  "of C47 (the parser must reject each)")
